@@ -259,7 +259,7 @@ PROPS["C14"] = {
 }
 
 PROPS["C09"] = {
-    "lean": ["WsVerif.Props.C09", "WsVerif.Props.C10Digits", "WsVerif.Bridge.C09"],
+    "lean": ["WsVerif.Props.C09", "WsVerif.Props.C09Token", "WsVerif.Props.C10Digits", "WsVerif.Bridge.C09"],
     "rule": "Requests over a grammar through BOTH ws.Upgrader.Upgrade (over a chunked reader, chunk sizes 0/1/7/16/33, buffer sizes "
             "1/16/17/64/default) and ws.HTTPUpgrader.Upgrade (net/http's ReadRequest + a hijackable ResponseWriter): LF and CRLF, header "
             "names canonical/lower/upper; 6 methods; 25 version forms (1.0, 1.2, 1.10, 2.0, 0.9, '1.;', '1.:', ':.1', leading zeros, numbers "
@@ -306,7 +306,7 @@ PROPS["C09"] = {
 }
 
 PROPS["C10"] = {
-    "lean": ["WsVerif.Props.C10", "WsVerif.Props.C10Digits", "WsVerif.Bridge.C10"],
+    "lean": ["WsVerif.Props.C10", "WsVerif.Props.C09Token", "WsVerif.Props.C10Digits", "WsVerif.Bridge.C10"],
     "rule": "ws.Dialer.Upgrade against a scripted server over a chunked transport (chunk sizes 0/1/7/16/33, buffer sizes 16/64/default): "
             "30 status-line forms (versions 1.0/1.2/1.10/2.0/01.1, status tokens '0101', '0:1', '10;', '1:1', ':1', beyond 2^64, '1e2', '+101', "
             "non-ASCII digits, 4- and 2-digit codes, missing reason/space); each of Upgrade/Connection/Sec-WebSocket-Accept absent / 8 value "
